@@ -48,7 +48,12 @@ ASSUMPTIONS = ['Serializer/Deserializer: buffer sizes below 2^64; the size_t com
                'MD5: one update call is shorter than 2^61 bytes (plain_text_len << 3 in a 64-bit size_t); the >= 512 MiB single-update '
                'case fixed by C19-05 is in the corpus (expected digest from python hashlib: the list model cannot evaluate 2^29 bytes); '
                'Gen.md5CarryWide records which carry comparison is in the source and theorem carry_is_narrow requires the repaired one',
-               'AES histories: an object built with AES(nullptr) is not used before its first setKey (it would read uninitialised round keys); '
+               'AES(nullptr) before the first setKey: the round keys are uninitialised memory, the ciphertext is unspecified and outside the quantifier (no key); '
+               'decided round 9: never in a P line; only invcipher(cipher(b)) == b is observed (aes.unkeyed), which holds for every content of w (C19_aes_unkeyed_roundtrip); '
+               'aes.hist / aes.seq do not use an unkeyed object; '
+               'long inputs (round 9): checksums, CRCs up to 2^24 bytes through Array evaluators proved equal to the list models; MD5 through the model up to 140000 bytes, '
+               'beyond that the expected digest is python hashlib (second reference) and independence of the cuts is C19_md5_split; Base64 / hex / URL decoders on long input '
+               'are answered by the round-trip and rejection theorems (closed forms), the encoders by the models (Base64 chunk-wise, proved equal), up to 2^20 bytes; '
                'bytes of an output buffer behind the returned count (b64.dec2 rest=, si.buf buf=) are M-class: inside the capacity given, not promised by the API',
                'AES: key and block are exactly 16 bytes (the model reads missing bytes as 0, the real code would read out of bounds)']
 RULE = ('one case = 1..12 codec operations from props/C19/plugin.py gen(): encode/decode/round-trip ops on byte strings of '
@@ -65,7 +70,10 @@ RULE = ('one case = 1..12 codec operations from props/C19/plugin.py gen(): encod
         'previous input/output block), md5 / md5.two (pieces = chaining state bytes, pending buffer, padding + length block, after 55/56/63/64 buffered bytes; two '
         'objects in turns), crc32.seq / crc16.seq (seed = previous result / its complement / 0 / all ones, data = bytes of the previous result), si.buf '
         '(dump and parse at offsets of one buffer), b64.dec2 (decode into the buffer holding the previous output), ser.view (deserializer over the '
-        'serializer\'s own output, append after fetch, set_pos to the current / previous / end position), url.host2 (two parses into the same Url::Host object)')
+        'serializer\'s own output, append after fetch, set_pos to the current / previous / end position), url.host2 (two parses into the same Url::Host object). '
+        'Round 9 (lesson h): long inputs in compact form `long <codec> … rep:<pattern>:<n> | prng:<seed>:<n>` of 2^16±2, 131070..131080, 2^18, 2^20, 2^24 bytes '
+        '(all ff, ff00, 00ff, fffe, 80, pseudo-random) through checksum8/16, crc16/32 (also chained), MD5 (one update and cuts around 2^16 / 2^20), and 2^16±1, 2^17±1, '
+        '131075, 2^20 bytes through Base64 enc/dec (incl. one bad character), hex enc/dec, URL enc/dec, serializer vector / fixed-buffer raw blocks; in BOTH tiers')
 LEVEL_TEXT = ('Lean 4 theorems over hand-written models of the nine codec sources, all for every input: round trips (Base64 both '
               'decoders, scalable integer for every 64-bit value and capacity, hex strings all three readers, serializer for every '
               'field sequence, URL both modes, AES-128 invcipher∘cipher), advertised sizes, no out-of-bounds outcome for every input '
@@ -77,6 +85,9 @@ LEVEL_TEXT = ('Lean 4 theorems over hand-written models of the nine codec source
               'self-delimiting inside a used buffer; two MD5 objects in turns; Base64 decode into a used buffer; URL host print/parse round trip; chained CRC law (and the counterexample to the naive one), '
               'MD5 object life cycle for every history and exactness of its 64-bit bit counter, signed stream operators, size_t bounds check = '
               'mathematical one, Base64 C-string overloads, URL port: accepted range, modulo-65536 narrowing as coded, print/parse round trip; '
+              'accumulator widths (round 9): CalcCheckSum16 with its uint32_t / CalcCheckSum8 with its uint16_t accumulator = the one\'s-complement sums for every length, '
+              'the fold-once variants exact up to 131074 / 257 bytes and refuted at 131075 / 258 bytes of 0xFF, Array evaluators for 16 MiB inputs = the list models, '
+              'Base64 encoder chunk-wise = encoder, unkeyed AES object: invcipher∘cipher = id for every content of w; '
               'tables regenerated from the source on every run; tied to the code on every '
               'run by differential execution under ASan+UBSan')
 LEVEL_NOTE = ('trusted: Lean kernel, hand-written models + differential tie (coverage bounded by the generator, measured in '
@@ -784,6 +795,7 @@ def gen_laws(tier):
     b1, b2 = bytes.fromhex('00112233445566778899aabbccddeeff'), bytes(16)
     ops += ['aes.seq %s - %s' % (hx(k1), hx(b1)), 'aes.seq %s %s %s' % (hx(k1), hx(k2), hx(b1)), 'aes.seq - %s %s' % (hx(k1), hx(b1)),
             'aes.seq %s %s %s %s %s' % (hx(k2), hx(k1), hx(b1), hx(b2), hx(b1)), 'aes.seq %s %s %s' % (hx(k1), hx(k1), hx(b2)), 'aes.seq - - %s' % hx(b1)]
+    ops += ['aes.unkeyed %s' % hx(x_) for x_ in (b1, b2, k1, bytes([0xff] * 16))] + ['aes.unkeyed %s @R%d%d' % (hx(_pdata(16, i_)), i_, 7 - i_) for i_ in range(8)]
     # Base64 C-string overloads (text ends at the first NUL) and decoding onto a vector that already holds data
     for t in (b'QUJD', b'QUI=', b'QQ==', b'QUJDREVG', b'', b'QUJ', b'QU*D'):
         ops += ['b64.decz %s %d' % (hx(t), 6), 'b64.declenz %s' % hx(t), 'b64.decapp %s -' % hx(t), 'b64.decapp %s 0102' % hx(t)]
@@ -941,6 +953,86 @@ def gen_state_derived(tier):
                'des.int 2', 'des.setpos 7', 'des.int 1', 'des.setpos 8', 'des.setpos 7', 'des.skip 1', 'des.setpos 8', 'des.check 0', 'des.int 1', 'des.skip 0',
                'des.setpos 3', 'des.endian %s' % ('l' if en == 'b' else 'b'), 'des.int 4', 'des.setpos 3', 'des.endian %s' % en, 'des.int 4', 'des.nocopy 1', 'des.nocopy 1']
 
+
+# ------------------------------------------------------------------------------------------ long inputs (round 9, lesson h)
+# Every loop of the anchored files that accumulates into a fixed-width variable is driven with inputs long enough to make an
+# accumulator of the next narrower plausible width wrap: 2^16±k, 2^17±k (131070..131080), 2^20 and 2^24 bytes of saturating
+# values (all 0xFF = all 0xFFFF words, alternating ff00 / 00ff, fffe) and of pseudo-random data, in compact form
+# (`rep:<pattern>:<n>` / `prng:<seed>:<n>`, expanded on both sides). Deterministic apart from the prng seeds; BOTH tiers.
+LONG_EDGE = [65534, 65535, 65536, 65537, 65538] + list(range(131070, 131081))
+LONG_FILLS = ['rep:ff:%d', 'rep:ff00:%d', 'rep:00ff:%d', 'rep:fffe:%d', 'rep:80:%d']
+
+
+def _rep_bytes(pat, n):
+    return (pat * (n // len(pat) + 1))[:n]
+
+
+def _prng_bytes(seed, n):
+    out = bytearray(n); x = seed
+    for i in range(n):
+        x = (x * 1664525 + 1013904223) & 0xffffffff
+        out[i] = x >> 24
+    return bytes(out)
+
+
+def gen_long(rng, tier):
+    sd = rng.randrange(1, 1 << 32)
+    # ---- checksums and CRCs: every edge length x every saturating fill and random data; 2^20 all fills; 2^24 ff and random
+    for n in LONG_EDGE:
+        ops = []
+        for f in LONG_FILLS + ['prng:%d:%%d' % sd]:
+            seg = f % n
+            ops += ['long sum16 ' + seg, 'long sum8 ' + seg]
+            if f.startswith(('rep:ff:', 'prng', 'rep:ff00')):
+                ops += ['long crc16 65535 ' + seg, 'long crc32 4294967295 ' + seg]
+                if f.startswith('rep:'):
+                    ops[-1] += ' ref=%d' % (zlib.crc32(_rep_bytes(bytes.fromhex(f.split(':')[1]), n)) & 0xffffffff)
+        ops += ['long sum16 rep:ff:%d rep:0001:2' % n, 'long sum16 rep:00:1 rep:ff:%d' % n, 'long sum16 prng:%d:%d rep:ff:%d' % (sd, n, n)]
+        ops += ['long crc32.chain 4294967295 %d rep:ff:%d prng:%d:9' % (n // 2, n, sd), 'long crc16.chain 65535 65536 prng:%d:%d' % (sd, n),
+                'long crc32.chain 0 %d prng:%d:%d' % (n - 1, sd, n), 'long crc16.chain 0 1 rep:ff:%d' % n]
+        yield ops
+    for n in (1 << 18, 1 << 20):
+        ops = []
+        for f in LONG_FILLS + ['prng:%d:%%d' % sd]:
+            seg = f % n
+            ops += ['long sum16 ' + seg, 'long sum8 ' + seg, 'long sum16 %s rep:ff:1' % seg]
+        ops += ['long crc16 65535 rep:ff:%d' % n, 'long crc32 4294967295 rep:ff:%d ref=%d' % (n, zlib.crc32(b'\xff' * n) & 0xffffffff),
+                'long crc16 0 prng:%d:%d' % (sd, n), 'long crc32 0 prng:%d:%d' % (sd, n),
+                'long crc32.chain 4294967295 65536 prng:%d:%d' % (sd, n), 'long crc16.chain 65535 %d prng:%d:%d' % (n - 1, sd, n)]
+        yield ops
+    n = 1 << 24
+    yield ['long sum16 rep:ff:%d' % n, 'long sum16 rep:ff:%d' % (n + 3), 'long sum16 prng:%d:%d' % (sd, n), 'long sum16 rep:ff00:%d' % n]
+    yield ['long sum8 rep:ff:%d' % n, 'long sum8 prng:%d:%d' % (sd, n + 1),
+           'long crc32 4294967295 rep:ff:%d ref=%d' % (n, zlib.crc32(b'\xff' * n) & 0xffffffff), 'long crc16 65535 rep:ff:%d' % n]
+    yield ['long crc32 4294967295 prng:%d:%d' % (sd, n), 'long crc16 65535 prng:%d:%d' % (sd, n),
+           'long crc32.chain 4294967295 %d prng:%d:%d' % (1 << 20, sd, n), 'long crc16.chain 65535 %d rep:ff00:%d' % (n - 1, n)]
+    # ---- MD5: one update and split updates around 2^16 / 2^17 / 2^20 / 2^24 (expected digest: the model up to 140000 bytes,
+    #      python hashlib beyond; the cuts do not matter by C19_md5_split)
+    pat = bytes((i * 167 + 13) & 0xff for i in range(251))
+    for n in (65535, 65536, 65537, 131071, 131072, 131073):
+        x = _rep_bytes(pat, n); h = hashlib.md5(x).hexdigest()
+        seg = 'rep:%s:%d' % (pat.hex(), n)
+        yield ['long md5 - %s ref=%s' % (seg, h), 'long md5 65536 %s ref=%s' % (seg, h) if n >= 65536 else 'long md5 65534 %s ref=%s' % (seg, h),
+               'long md5 1,%d,%d %s ref=%s' % (n // 2, n - 1, seg, h), 'long md5 - rep:ff:%d ref=%s' % (n, hashlib.md5(b'\xff' * n).hexdigest()),
+               'long md5 64,65535 prng:%d:%d' % (sd, n)]
+    for n in (1 << 20, 1 << 24):
+        x = _rep_bytes(pat, n); h = hashlib.md5(x).hexdigest()
+        seg = 'rep:%s:%d' % (pat.hex(), n)
+        yield ['long md5 - %s ref=%s' % (seg, h), 'long md5 65536,%d %s ref=%s' % (n - 1, seg, h), 'long md5 65535,65537,%d %s ref=%s' % (1 << 20, seg, h),
+               'long md5 %d rep:ff:%d ref=%s' % (n // 2, n + 1, hashlib.md5(b'\xff' * (n + 1)).hexdigest())]
+    # ---- Base64, hex strings, URL percent-encoding, serializer raw blocks: lengths around 2^16 / 2^17 and 2^20
+    for n in (65535, 65536, 65537, 131071, 131072, 131073, 131075, 1 << 20):
+        ops = []
+        for seg in ('rep:ff:%d' % n, 'prng:%d:%d' % (sd, n), 'rep:00fb:%d' % n):
+            ops += ['long b64 ' + seg, 'long url %d %s' % (n & 1, seg), 'long hexdec ' + seg]
+            if n <= 131075 or seg.startswith('prng'):
+                ops += ['long ser %s %s' % ('bl'[n & 1], seg), 'long serraw %s %d %s' % ('lb'[n & 1], rng.choice([0, 3, 4, 8]), seg)]
+        enc_chars = (4 * n + 2) // 3
+        ops += ['long b64bad %d rep:ff:%d' % (pos, n) for pos in (0, enc_chars - 1, 65536, rng.randrange(enc_chars))]
+        ops += ['long url 1 rep:2541252f:%d' % n, 'long url 0 rep:20:%d' % n]
+        yield ops
+    yield ['long hexenc %d %s' % (u, seg) for u in (0, 1) for seg in ('rep:ff:65535', 'prng:%d:65535' % sd, 'rep:0a:65534', 'rep:a0:1', 'prng:%d:32768' % sd)]
+
 def gen(rng, tier):
     n = 500 if tier == 'quick' else 6000
     # malformed stream: both sides answer bad-op
@@ -969,6 +1061,8 @@ def gen(rng, tier):
     for c in gen_laws(tier):
         yield c
     for c in gen_state_derived(tier):
+        yield c
+    for c in gen_long(rng, tier):
         yield c
     vals = si_values(rng)
     if tier == 'thorough':
@@ -1012,7 +1106,7 @@ NT_TAGS = ('b64-cap-exact', 'b64-cap-short', 'b64-invalid-char', 'b64-hi-byte', 
            'des-int', 'ser-int', 'url-dec-exc', 'url-dec-escapes', 'md5-pieces2', 'md5-pieces3', 'md5-pieces4', 'md5-pieces5',
            'md5-pieces6', 'md5-pieces7', 'md5-pieces8', 'md5-pieces9', 'md5-len-mod64-ge56',
            'b64-cstr', 'b64-append', 'des-check-', 'ser-big', 'crc-chain-', 'url-host-', 'url-mkhost-', 'md5-seq-', 'aes-seq-',
-           'aes-hist-', 'aes-rekey-', 'url-host2-', 'crc-seq-', 'si-buf-', 'md5-two-', 'b64-dec2', 'ser-view')
+           'aes-hist-', 'aes-rekey-', 'url-host2-', 'crc-seq-', 'si-buf-', 'md5-two-', 'b64-dec2', 'ser-view', 'long-', 'aes-unkeyed')
 
 
 def nontrivial(ops, model_lines):
